@@ -113,7 +113,7 @@ impl C08 {
     }
     // the month object reached from the day is the very month of its year's list: same position, same first (Jie) day,
     // and its day list contains the date (only asserted when no Jie near the date is ambiguous)
-    if alts.len() == 1 && !e.ambiguous_day && c.index_of_jdn(e.day).is_some() && (exp.0 >= 1 && exp.0 <= 9997) && (near || jdn % 6 == 0 || (1729820..=1729900).contains(&jdn)) {
+    if alts.len() == 1 && !e.ambiguous_day && c.index_of_jdn(e.day).is_some() && (exp.0 >= 1 && exp.0 <= 9997) && (jdn % 6 == 0 || (1729820..=1729900).contains(&jdn)) {
       let want_idx = ((e.index - 3) / 2).rem_euclid(12);
       match guard(|| {
         let mo = sd_idx(c, i).get_sixty_cycle_day().get_sixty_cycle_month();
@@ -251,7 +251,8 @@ impl C08 {
         // ... and the stepped month (whose source has just been asked for its first day) is the constructed one in every view
         if let Ok((a, b)) = guard(|| {
           let fresh = tyme4rs::tyme::sixtycycle::SixtyCycleMonth::from_index(y as isize, j as isize + 1);
-          ((nx.get_index_in_year(), ymd(&nx.get_first_day().get_solar_day()), nx.get_days().len()), (fresh.get_index_in_year(), ymd(&fresh.get_first_day().get_solar_day()), fresh.get_days().len()))
+          let full = j % 4 == (y % 4) as usize;
+          ((nx.get_index_in_year(), ymd(&nx.get_first_day().get_solar_day()), if full { nx.get_days().len() } else { 0 }), (fresh.get_index_in_year(), ymd(&fresh.get_first_day().get_solar_day()), if full { fresh.get_days().len() } else { 0 }))
         }) {
           if a != b {
             out.fail(env, viol("months", "stepped_month_differs_from_constructed", case, &kk, format!("month {} of sexagenary year {} .next(1) after get_first_day()", j, y), format!("index {} first day {} {} days", b.0, fmt_ymd(b.1), b.2), format!("index {} first day {} {} days", a.0, fmt_ymd(a.1), a.2)));
@@ -331,6 +332,19 @@ impl Prop for C08 {
               if di >= 0 && (di as usize) < NDAYS {
                 run_case(env, out, "time", &Case::ints(&[di, sec.rem_euclid(86400)]), &ev);
               }
+            }
+          }
+        }
+        // the year pillar turns at the Lichun instant of EVERY year (both tiers): the second before, the second itself,
+        // the second after
+        for y in ylo..=yhi {
+          let e = *ts.get(y, 3);
+          for ds in [-1i64, 0, 1] {
+            let sec = e.sec + ds;
+            let di = sec.div_euclid(86400);
+            if di >= 0 && (di as usize) < NDAYS {
+              out.class("instants_around_the_lichun_of_every_year");
+              run_case(env, out, "time", &Case::ints(&[di, sec.rem_euclid(86400)]), &ev);
             }
           }
         }
